@@ -75,6 +75,8 @@ def decode_dest(code_hex, at):
     return None
 
 EXPECT = {"raw": 1000, "unc": 1000, "clo": 2000, "fake": 3000}
+SITE_N = {0: 0, 1: 1, 2: 2, 3: 3, 4: 1, 5: 2, 6: None, 7: 7}
+SITE_WHEN = {0: True, 1: True, 2: True, 3: True, 4: True, 5: False, 6: True, 7: False}
 
 def translate(h, lifetimes):
     """symbolic ops -> model ops; returns (model lifetimes string, symtab, expected value of each synthetic fake)"""
@@ -85,11 +87,38 @@ def translate(h, lifetimes):
     recs = h["recs"]
     # index records by (lifetime, op index)
     by = {(r.l, r.tag): r for r in recs}
+    def synth(name, li, oi, val):
+        if name not in addr:
+            r = by.get((li, f"OP{oi}"))
+            dest = None
+            if r:
+                for e in r.ev:
+                    u = e.split()
+                    if u[0] == "F" and len(u) > 3 and any(j == u[1] for j in r.jits):
+                        dest = decode_dest(u[3], int(u[1], 16))
+            if dest is None: dest = 0xdead0000 + len(addr)
+            addr[name] = dest
+            synth_val[name] = val
+        return addr[name]
     for li, ops in enumerate(lifetimes):
         mo = []
+        latest = {}
         for oi, op in enumerate(ops):
             t = op.split(":")
-            if t[0] == "I":
+            if t[0] == "T":
+                k = int(t[2]); f = addr[t[1]]
+                d = synth(f"zsite{k}", li, oi, 4000 + k)
+                mo.append(f"I:{f:x}:exec:{d:x}" + (f":{k}:{SITE_N[k]}" if SITE_N[k] is not None else ""))
+                latest[t[1]] = k
+            elif t[0] in ("NOMEM", "MPFAIL"):
+                mo.append(f"I:{addr[t[1]]:x}:exec:{addr['fk0']:x}")
+            elif t[0] in ("C", "CX") and latest.get(t[1]) is not None:
+                k = latest[t[1]]
+                m = 1 if (t[0] == "C" or not SITE_WHEN[k]) else 0
+                mo.append(f"C:{k}:{SITE_N[k]}:{m}" if SITE_N[k] is not None else f"C:-:-:{m}")
+            elif t[0] == "CX": mo.append("C:-:-:1")
+            elif t[0] == "I":
+                latest[t[1]] = None
                 f = addr[t[1]]
                 if t[2] == "bool": mo.append(f"I:{f:x}:bool:{t[3]}")
                 elif t[2] in ("raw", "unc"): mo.append(f"I:{f:x}:exec:{addr['fk' + t[3]]:x}")
@@ -111,7 +140,7 @@ def translate(h, lifetimes):
             elif t[0] == "BADSIG": mo.append("X:sig")
             elif t[0] == "BADBOOL": mo.append("X:boolgate")
             elif t[0] == "NULL": mo.append("X:null")
-            elif t[0] == "C": mo.append("C")
+            elif t[0] == "C": mo.append("C:-:-:1")
             elif t[0] == "P": mo.append("P")
         out.append(",".join(mo) if mo else "-")
     symtab = ",".join(f"{k}={v:x}" for k, v in addr.items())
@@ -165,11 +194,12 @@ def spec_values(h, lifetimes, synth_val):
         for oi, op in enumerate(ops):
             t = op.split(":")
             stop = False
-            if t[0] == "I":
+            if t[0] == "T": cur[t[1]] = 4000 + int(t[2])
+            elif t[0] == "I":
                 if t[2] == "bool": cur[t[1]] = int(t[3])
                 elif t[2] == "rawat": cur[t[1]] = h["origvals"][t[3]]
                 else: cur[t[1]] = EXPECT[t[2]] + int(t[3])
-            elif t[0] in ("BADSIG", "BADBOOL", "NULL", "P"):
+            elif t[0] in ("BADSIG", "BADBOOL", "NULL", "P", "NOMEM", "MPFAIL"):
                 stop = True
             if stop: break
             exp.append(((li, f"OP{oi}"), dict(cur)))
